@@ -66,6 +66,8 @@ type Runner struct {
 	ReplayDir string
 	nextDoc   int
 	maxMis    int
+	docsMade  int
+	stressEvery int // when > 0, every n-th generated document carries DocGen.stressElem
 	CoqCases  []string // model commands with the model's answers, for the vm_compute cross-check
 	pending   []pendingQuery
 }
